@@ -98,7 +98,8 @@ type cursor struct {
 	// true if the rune described by `prevLine` (that is, following rule LB9,
 	// ignoring CM and ZWJ) is in [\p{Extended_Pictographic}&\p{Cn}],
 	// used for rule LB30b
-	isPrevLineExtPictCn bool
+	isPrevLineExtPictCn      bool
+	isPrevLineLargeEastAsian bool // the rune carrying prevLine has East Asian width F, W or H (used by LB30; a combining mark does not change it, see LB9)
 
 	// the last rune after spaces, used in rules LB14,LB15,LB16,LB17
 	// to match ... SP* ...
